@@ -150,6 +150,15 @@ def do_access(ds, n, acc):
     kind, i = acc
     if kind == 'index':
         return [(i, ds[i])]
+    if kind == 'oob':
+        # an index outside [-n, n): refused like the un-cached pipeline refuses it
+        for j in (-(n + 1 + i), n + i):
+            try:
+                v = ds[j]
+            except IndexError:
+                continue
+            return [(n + 1000 + i, ('<returned for index %d of %d examples>' % (j, n), v))]
+        return []
     if kind == 'neg':
         return [(i, ds[i - n])]
     if kind == 'npindex':
@@ -175,7 +184,7 @@ def do_access(ds, n, acc):
 
 
 def gen_access(rng, n, kind):
-    k = rng.choice(['index', 'index', 'neg', 'npindex', 'iter', 'slice', 'copy', 'iter_k'] +
+    k = rng.choice(['index', 'index', 'neg', 'npindex', 'iter', 'slice', 'copy', 'iter_k', 'oob'] +
                    (['key'] if kind == 'dict' else []))
     return [k, rng.randrange(n + 1) if k == 'iter_k' else rng.randrange(n)]
 
